@@ -54,6 +54,8 @@ def _match_one(key, want, rec):
         return want in (rec.get("msg") or "")
     if key == "path_contains":
         return want in (rec.get("path") or "")
+    if key == "tb_contains":  # some library frame of the traceback (file:function:line) contains the string
+        return any(want in fr for fr in (rec.get("tb") or []))
     have = rec.get(key)
     if isinstance(want, list):
         return have in want
